@@ -19,6 +19,16 @@ Theorem C17_rule_verdict : forall r doc, r_cast r = [] ->
 Proof. exact C17_subst_rule_test_nocast. Qed.
 Print Assumptions C17_rule_verdict.
 
+(* a rule that casts is judged on the copy holding the casts made so far (its own included): there, a data-path argument
+   means the value at that path IN THAT COPY *)
+Theorem C17_rule_verdict_with_casts : forall r doc copy sel cp1,
+  r_cast r <> [] ->
+  selection T (r_path r) doc = Ok sel ->
+  cast_loop (r_cast r) sel (match copy with Some c => c | None => doc end) = Ok cp1 ->
+  rule_test T (subst_rule cp1 r) doc copy = rule_test T r doc copy.
+Proof. exact C17_subst_rule_test_cast. Qed.
+Print Assumptions C17_rule_verdict_with_casts.
+
 (* an argument that cannot be resolved on this document fails the item instead of aborting *)
 Theorem C17_unresolvable_fails : forall doc (l : leaf arg1) datum v e,
   pre_apply (l_pre l) datum = Ok v -> catches (t_caught_call T) e = true ->
